@@ -622,6 +622,7 @@ type dagCase struct {
 	Edges [][]int `json:"edges"`             // Edges[i] = indices (> i) imported by package i
 	Roots []int   `json:"roots"`             // load patterns, in this order
 	Std   bool    `json:"std"`               // package 0 also imports fmt and strings
+	Dang  []int   `json:"dangling,omitempty"` // packages whose directory holds a dangling symbolic link (an editor's lock file `.#p.go`): the go tool ignores it, hashing the directory fails
 	Dir   int     `json:"linedir,omitempty"` // a //line directive ahead of every package's declaration: 1 names a file of its own beside the source, 2 a file in the next package's directory, 3 an absolute path elsewhere
 	out   string
 	have  bool
@@ -743,7 +744,7 @@ func (c *dagCase) eval(u *gengotypes.Universe, root, prefix string) {
 		for _, i := range reach {
 			p := u.Package(prefix + fmt.Sprintf("/d%d", i))
 			if p == nil {
-				return "missing-package"
+				return fmt.Sprintf("missing-package ORACLE:Universe.Package(%q) is nil although the package belongs to the closure of the loaded roots (it was loaded, and its importers' tables refer to it)", fmt.Sprintf("d%d", i))
 			}
 			var is []string
 			for path, ip := range p.Imports() {
@@ -828,6 +829,11 @@ func loadDags(cases []*dagCase) {
 			os.MkdirAll(filepath.Dir(full), 0o755)
 			os.WriteFile(full, []byte(content), 0o644)
 		}
+		for _, i := range c.Dang {
+			if i < c.N {
+				os.Symlink("nobody@nowhere.1234", filepath.Join(root, fmt.Sprintf("g%d", k), fmt.Sprintf("d%d", i), ".#p.go"))
+			}
+		}
 		for i, r := range c.Roots {
 			pat := fmt.Sprintf("./g%d/d%d", k, r)
 			if i == 0 {
@@ -879,7 +885,7 @@ func (c *dagCase) Oracle(out string) string {
 func (c *dagCase) Shrinks() []Case {
 	var out []Case
 	if c.N > 1 {
-		n := &dagCase{N: c.N - 1, Std: c.Std, Dir: c.Dir}
+		n := &dagCase{N: c.N - 1, Std: c.Std, Dir: c.Dir, Dang: c.Dang}
 		for i := 0; i < c.N-1 && i < len(c.Edges); i++ {
 			var e []int
 			for _, j := range c.Edges[i] {
@@ -900,7 +906,7 @@ func (c *dagCase) Shrinks() []Case {
 	}
 	for i := range c.Edges {
 		for k := range c.Edges[i] {
-			n := &dagCase{N: c.N, Roots: c.Roots, Std: c.Std, Dir: c.Dir}
+			n := &dagCase{N: c.N, Roots: c.Roots, Std: c.Std, Dir: c.Dir, Dang: c.Dang}
 			for a := range c.Edges {
 				n.Edges = append(n.Edges, append([]int{}, c.Edges[a]...))
 			}
@@ -909,19 +915,22 @@ func (c *dagCase) Shrinks() []Case {
 		}
 	}
 	if len(c.Roots) > 1 {
-		out = append(out, &dagCase{N: c.N, Edges: c.Edges, Roots: c.Roots[:1], Std: c.Std, Dir: c.Dir})
+		out = append(out, &dagCase{N: c.N, Edges: c.Edges, Roots: c.Roots[:1], Std: c.Std, Dir: c.Dir, Dang: c.Dang})
 	}
 	if c.Std {
-		out = append(out, &dagCase{N: c.N, Edges: c.Edges, Roots: c.Roots, Dir: c.Dir})
+		out = append(out, &dagCase{N: c.N, Edges: c.Edges, Roots: c.Roots, Dir: c.Dir, Dang: c.Dang})
 	}
 	if c.Dir != 0 {
-		out = append(out, &dagCase{N: c.N, Edges: c.Edges, Roots: c.Roots, Std: c.Std})
+		out = append(out, &dagCase{N: c.N, Edges: c.Edges, Roots: c.Roots, Std: c.Std, Dang: c.Dang})
+	}
+	for k := range c.Dang {
+		out = append(out, &dagCase{N: c.N, Edges: c.Edges, Roots: c.Roots, Std: c.Std, Dir: c.Dir, Dang: append(append([]int{}, c.Dang[:k]...), c.Dang[k+1:]...)})
 	}
 	return out
 }
 func (c *dagCase) Key() string {
-	if c.Dir != 0 {
-		return fmt.Sprintf("n=%d edges=%v roots=%v std=%v linedir=%d", c.N, c.Edges, c.Roots, c.Std, c.Dir)
+	if c.Dir != 0 || len(c.Dang) > 0 {
+		return fmt.Sprintf("n=%d edges=%v roots=%v std=%v linedir=%d dangling=%v", c.N, c.Edges, c.Roots, c.Std, c.Dir, c.Dang)
 	}
 	return fmt.Sprintf("n=%d edges=%v roots=%v std=%v", c.N, c.Edges, c.Roots, c.Std)
 }
@@ -930,7 +939,7 @@ func (c *dagCase) Classes() []string {
 	for _, x := range c.Edges {
 		e += len(x)
 	}
-	return []string{fmt.Sprintf("packages:%d", c.N), fmt.Sprintf("edges:%d", min(e, 6)), fmt.Sprintf("roots:%d", len(c.Roots)), fmt.Sprintf("line-directive:%d", c.Dir)}
+	return []string{fmt.Sprintf("packages:%d", c.N), fmt.Sprintf("edges:%d", min(e, 6)), fmt.Sprintf("roots:%d", len(c.Roots)), fmt.Sprintf("line-directive:%d", c.Dir), fmt.Sprintf("dangling-links:%d", min(len(c.Dang), 2))}
 }
 func (c *dagCase) Nontrivial() bool {
 	for _, x := range c.Edges {
@@ -958,6 +967,13 @@ func genDag(r *Rng) *dagCase {
 	c := &dagCase{N: 1 + r.Intn(6), Std: r.Chance(30)}
 	if r.Chance(30) {
 		c.Dir = 1 + r.Intn(3)
+	}
+	if r.Chance(20) {
+		for i := 0; i < c.N; i++ {
+			if r.Chance(40) {
+				c.Dang = append(c.Dang, i)
+			}
+		}
 	}
 	for i := 0; i < c.N; i++ {
 		var e []int
@@ -1279,7 +1295,7 @@ func init() {
 			Name: "imports", Quick: 300, Thorough: 2000, New: func() Case { return &dagCase{} },
 			Gen:      func(r *Rng, i int) Case { return genDag(r) },
 			BatchRun: dagBatch, ShrinkBudget: 30, MaxShrinks: 4,
-			Rule: "acyclic import graphs of 1–6 module packages (some also importing std packages; in a third of the graphs every file has a `//line` directive ahead of its declaration, naming a file beside the source, a file in another package's directory, or an absolute path elsewhere), loaded from 1–6 roots listed in either order, all graphs of a run in one types.Load; compared with the registration model: every import table entry resolved or not; oracle: Imports() total, non-nil and identical to Universe.Package(path), SourceDir() = directory of the files, LocateInPackage(position) = the package, for the start of the file and for its last declaration",
+			Rule: "acyclic import graphs of 1–6 module packages (some also importing std packages; in a third of the graphs every file has a `//line` directive ahead of its declaration, naming a file beside the source, a file in another package's directory, or an absolute path elsewhere; in a fifth of the graphs some package directories hold a dangling symbolic link, which the go tool ignores and the directory hash stumbles over), loaded from 1–6 roots listed in either order, all graphs of a run in one types.Load; compared with the registration model: every import table entry resolved or not; oracle: Imports() total, non-nil and identical to Universe.Package(path), SourceDir() = directory of the files, LocateInPackage(position) = the package, for the start of the file and for its last declaration",
 		},
 		{
 			Name: "closure", New: func() Case { return &closureCase{} },
